@@ -68,6 +68,60 @@ PROPS = {
         "assumptions": ["input is valid UTF-8 (property quantifier)",
                         "on Invalid the text is left unchanged and no terminator is kept (C13 wording; pinned by the repo's test_readline_direct)"],
     },
+    "C17": {
+        "module": "Rl.Props.C17",
+        "targets": [{"name": "keys", "gen": "keys", "header_tokens": 2},
+                    {"name": "ed17", "gen": "ed17", "header_tokens": 9}],
+        "shards": {"quick": 8, "thorough": 16},
+        "rule": "keys: the byte decoder observed as the first key dispatched in vi insert mode: every single byte alone and with "
+                "continuation bytes, every ESC-prefixed sequence of <=2 (thorough <=3) bytes over the 45 bytes the decoder "
+                "distinguishes (type-ahead and one key press per byte), grammar-directed random CSI/SS3/rxvt sequences, random "
+                "byte soup, valid multi-byte characters and near misses. ed17: the real Editor::readline on a pty fed arbitrary "
+                "bytes (invalid UTF-8, truncated/over-long escape sequences, paste start without end, huge numeric arguments, "
+                "NUL and C1 controls) mixed with structured emacs/vi key scripts, with scripted completer / validator / hinter "
+                "helpers, with an external printer attached (select path) and as type-ahead; then the terminal hangs up. "
+                "Oracle: no panic, the read returns after the hang-up, no stall while unread keys are buffered. "
+                "distinct = hash of the request; non-trivial = the read dispatched at least one key.",
+        "trivial_impl_regex": r"=> .*",
+        "exhaustive": {"quick": False, "thorough": False},
+        "trusted_base": [
+            "utf8parse modelled as standard UTF-8 validation with the offending byte consumed (correspondence-checked)",
+            "the pty line discipline in raw mode passes bytes through unchanged; one read() returns everything queued (<= 1024)",
+            "ESC ESC: poll(100 ms) is modelled as 'the next key press arrives within the window' (the harness delivers it as soon as the reader blocks)",
+            "SIGWINCH / SIGTSTP / real select-poll timing are exercised by the harness only (thorough tier), not proved"],
+        "unproved": ["C17_decoder_progress_statement", "C17_editor_no_panic_statement"],
+        "level_text": "Lean theorems about the input-queue model (a byte read consumes exactly one byte, fails only on hang-up, waiting "
+                      "loses nothing) and an executable model of the whole decoder and editor that is diffed against the real "
+                      "Editor::readline on a pseudo-terminal for arbitrary byte streams; the no-panic / no-wedge / no-stall oracle runs "
+                      "on the implementation's own observations. Partial: the lift of progress through the escape tables and the "
+                      "editor-level no-panic invariant are stated, not yet proved; signals and real timing are exercised, not proved.",
+        "level_note": "Trusted: Lean kernel; pty harness (quiescence detection via /proc) and diff; utf8parse as standard UTF-8 validation; "
+                      "kernel tty layer. Partial claim: see unproved statements in evidence.",
+        "assumptions": ["keyseq_timeout = None (default)", "keys are delivered one key press at a time or as one type-ahead write"],
+    },
+    "C13": {
+        "module": "Rl.Props.C13",
+        "targets": [{"name": "ed13", "gen": "ed13", "header_tokens": 9}],
+        "shards": {"quick": 8, "thorough": 16},
+        "rule": "ed13: emacs and vi key scripts on a pty with a validator always installed (scripted verdict table keyed on characters "
+                "of the text: valid+message / incomplete / invalid with and without message / error; or MatchingBracketValidator), "
+                "Enter / C-j / brackets sprinkled at arbitrary points and cursor positions, inside searches and completions, with "
+                "hints, history and initial text. Oracle on the implementation: every Enter callback is checked against the verdict "
+                "on the text the handler saw (valid => that text is returned; incomplete => line break at the cursor; invalid with "
+                "message => text and cursor unchanged; error => propagated), and a returned line is valid and is what the validator saw.",
+        "trivial_impl_regex": r"=> .*",
+        "exhaustive": {"quick": False, "thorough": False},
+        "trusted_base": ["the scripted validator is a function of the text only (same table on both sides)",
+                         "pty harness and diff"],
+        "unproved": ["C13_submit_requires_valid_statement"],
+        "level_text": "Lean theorems about the Enter decision table of the editor model (submit only on Valid; Valid always submits for the "
+                      "Enter binding; Incomplete inserts a line break; Invalid with message leaves the text), the editor model diffed "
+                      "against the real editor on a pty, and the C13 oracle evaluated on the implementation's callbacks and result. "
+                      "The non-terminal clause is proved in C18 (C18_validator…). Partial: the step-level statement is stated, not yet proved.",
+        "level_note": "Trusted: Lean kernel; pty harness; scripted validators. Cmd::AcceptLine bound by an application and vi EndOfFile are "
+                      "outside the statement (DESIGN 7.1).",
+        "assumptions": ["validators are functions of the text"],
+    },
 }
 
 # properties not (yet) claimed, with the reason (kept current; see DESIGN.md)
